@@ -44,7 +44,7 @@ def elaborate(netlist, max_nodes=200000):
 
     def pin_index(pin):
         port = pin.port
-        return (port.name, list(port.pins).index(pin))
+        return (list(port.definition.ports).index(port), list(port.pins).index(pin))
 
     def walk(inst, path):
         count[0] += 1
@@ -71,9 +71,9 @@ def elaborate(netlist, max_nodes=200000):
                 walk(child, cpath)
 
     if top is not None and top.reference is not None:
-        for port in top.reference.ports:
+        for pi, port in enumerate(top.reference.ports):
             for k, pin in enumerate(port.pins):
-                ep = ('top', port.name, k)
+                ep = ('top', pi, k)
                 endpoints.append((ep, wkey((), pin.wire) if pin.wire is not None else None))
         walk(top, ())
     groups = {}
@@ -106,10 +106,10 @@ def elaborate_flat(netlist):
                         tuple(sorted((k, repr(v)) for k, v in child._data.items() if k not in ('.NAME', '.NS', 'EDIF.identifier'))))
         for ip, op in child._pins.items():
             port = ip.port
-            endpoints.append((('leaf', path, port.name, list(port.pins).index(ip)), id(op.wire) if op.wire is not None else None))
-    for port in d.ports:
+            endpoints.append((('leaf', path, list(port.definition.ports).index(port), list(port.pins).index(ip)), id(op.wire) if op.wire is not None else None))
+    for pi, port in enumerate(d.ports):
         for k, pin in enumerate(port.pins):
-            endpoints.append((('top', port.name, k), id(pin.wire) if pin.wire is not None else None))
+            endpoints.append((('top', pi, k), id(pin.wire) if pin.wire is not None else None))
     groups = {}
     singles = []
     for ep, wk in endpoints:
